@@ -438,6 +438,14 @@ def run(ctx):
     ctx.rule('C19.2-errors-surface', 'in the functions of this property that can themselves report failure, the Result of one of the repository\'s own fallible functions is never turned into "nothing" or a default (ok(), unwrap_or*, map_or*): an error must surface as an error, not as a value the callee never produced; a rule about what must not be there (exercised on the fixture every run)', floor=0)
     _swallow(ctx, P, 'C19.2-errors-surface', ('edp_node::node::Node::spawn_receiver_task', 'edp_node::node::Node::route_message', 'edp_client::connection::Connection::receive_message_from_read_half'))
 
+    # a reply reaches its outstanding call only if nobody else empties the table of outstanding calls: rule C17.4 re-run
+    ctx.rule('C19.1-call-table-untouched', 'the table of outstanding remote calls is touched only by the call itself and by the router (rule C17.4-table-accessors re-run): a receiver that clears it when ITS peer goes away '
+             'cancels the calls waiting on every other peer, and their replies are then dropped', floor=2)
+    from ..order import SubCtx as _Sub19
+    from . import c17 as _c17
+    if type(ctx).__name__ != 'SubCtx':     # (C17 re-runs rules of this module: do not chase the circle)
+        _c17.run(_Sub19(ctx, 'C19.1-call-table-untouched', 'c17', allow=('C17.4-table-accessors',)))
+
 
 def _outcomes(L, start, loop, recv_bb):
     """Outcomes {'continue','break'} reachable from `start`, propagating constant bools assigned on the
